@@ -16,6 +16,7 @@ CONSTANTS
   CloseConn = TRUE
   HasFallback = TRUE
   AllowClose = TRUE
+  RtoChanges = 0
   DeadlineTicks = FALSE
   OneAtATime = FALSE
   SafePool = TRUE
@@ -28,4 +29,5 @@ INVARIANT RoutedByID
 INVARIANT ConnOwnership
 INVARIANT GoroutinesGone
 PROPERTY ClosedStartsRefused
+PROPERTY RtoSnapshot
 CHECK_DEADLOCK FALSE
